@@ -552,6 +552,7 @@ pub struct ObjVec {
     pub class: Gc<ObjClass>,
     pub elements: Vec<Value>,
     disp_lock: Cell<bool>,
+    cmp_lock: Cell<bool>,
 }
 
 impl ObjVec {
@@ -560,6 +561,7 @@ impl ObjVec {
             class,
             elements: Vec::new(),
             disp_lock: Cell::new(false),
+            cmp_lock: Cell::new(false),
         }
     }
 
@@ -568,6 +570,7 @@ impl ObjVec {
             class,
             elements,
             disp_lock: Cell::new(false),
+            cmp_lock: Cell::new(false),
         }
     }
 }
@@ -600,12 +603,29 @@ impl fmt::Display for ObjVec {
     }
 }
 
+/// Compares the contents of two distinct containers. A container that is met again while it is
+/// being compared contains itself: such containers are equal to themselves only, which also ends
+/// the recursion.
+fn eq_guarded(first: &Cell<bool>, second: &Cell<bool>, compare: impl FnOnce() -> bool) -> bool {
+    if first.get() || second.get() {
+        return false;
+    }
+    first.set(true);
+    second.set(true);
+    let ret = compare();
+    first.set(false);
+    second.set(false);
+    ret
+}
+
 impl cmp::PartialEq for ObjVec {
     fn eq(&self, other: &ObjVec) -> bool {
         if self as *const _ == other as *const _ {
             return true;
         }
-        self.elements == other.elements
+        eq_guarded(&self.cmp_lock, &other.cmp_lock, || {
+            self.elements == other.elements
+        })
     }
 }
 
@@ -764,6 +784,7 @@ pub struct ObjHashMap {
     pub class: Gc<ObjClass>,
     pub elements: HashMap<Value, Value, BuildPassThroughHasher>,
     disp_lock: Cell<bool>,
+    cmp_lock: Cell<bool>,
 }
 
 impl ObjHashMap {
@@ -772,6 +793,7 @@ impl ObjHashMap {
             class,
             elements: HashMap::with_hasher(BuildPassThroughHasher::default()),
             disp_lock: Cell::new(false),
+            cmp_lock: Cell::new(false),
         }
     }
 }
@@ -821,7 +843,9 @@ impl cmp::PartialEq for ObjHashMap {
         if self as *const _ == other as *const _ {
             return true;
         }
-        self.elements == other.elements
+        eq_guarded(&self.cmp_lock, &other.cmp_lock, || {
+            self.elements == other.elements
+        })
     }
 }
 
@@ -830,6 +854,7 @@ pub struct ObjTuple {
     pub class: Gc<ObjClass>,
     pub elements: Vec<Value>,
     self_lock: Cell<bool>,
+    cmp_lock: Cell<bool>,
 }
 
 impl ObjTuple {
@@ -838,6 +863,7 @@ impl ObjTuple {
             class,
             elements,
             self_lock: Cell::new(false),
+            cmp_lock: Cell::new(false),
         }
     }
 
@@ -896,7 +922,9 @@ impl cmp::PartialEq for ObjTuple {
         if self as *const _ == other as *const _ {
             return true;
         }
-        self.elements == other.elements
+        eq_guarded(&self.cmp_lock, &other.cmp_lock, || {
+            self.elements == other.elements
+        })
     }
 }
 
